@@ -2,6 +2,7 @@ import collections.abc
 from collections.abc import Mapping, Set
 from contextlib import AbstractContextManager, contextmanager, nullcontext
 from dataclasses import dataclass, replace
+from keyword import iskeyword
 from typing import Any, Callable, Optional
 
 from ...code_tools.cascade_namespace import BuiltinCascadeNamespace, CascadeNamespace
@@ -328,7 +329,7 @@ class BuiltinModelLoaderGen(ModelLoaderGen):
 
                 value = state.v_field(field)
                 if param.kind == ParamKind.KW_ONLY or has_skipped_params:
-                    constructor_builder(f"{param.name}={value},")
+                    constructor_builder(self._render_keyword_arg(param.name, value))
                 elif param.kind == ParamKind.POS_ONLY and has_skipped_params:
                     raise ValueError(
                         "Can not generate consistent constructor call,"
@@ -354,6 +355,12 @@ class BuiltinModelLoaderGen(ModelLoaderGen):
         else:
             state.builder += "return "
             state.builder.extend_including(constructor_builder)
+
+    def _render_keyword_arg(self, name: str, value: str) -> str:
+        # keys of TypedDict and names of pydantic fields can be keywords
+        if iskeyword(name) or name == "__debug__":
+            return f"**{{{name!r}: {value}}},"
+        return f"{name}={value},"
 
     def _gen_root_crown_dispatch(self, state: GenState, crown: InpCrown) -> bool:
         """Returns True if code is generated"""
